@@ -363,7 +363,29 @@ def import_macro_rules(fx, rep):
         rep.bad('R15.5', 'anchor', '-', 'imported macro rules produced too few instances (%d)' % n)
 
 
+def check_generator_state(fx, rep):
+    """R15.7: one generator object is used for every interface of a run (`generate_interfaces`): whatever it remembers besides the text written so far
+    leaks from one interface into the next - the first interface's error type, rename decision .. would be used for all later ones"""
+    cg = fx.crate('zlink_codegen', 'full')
+    adts = [(p_, a) for p_, a in cg.adts.items() if p_.endswith('CodeGenerator')]
+    if not adts:
+        rep.bad('R15.7', 'anchor', 'zlink-codegen/src/codegen.rs', 'struct CodeGenerator not found in the type facts')
+        return
+    SINK = {'std::string::String', 'alloc::string::String', 'String', 'usize', 'u32', 'u16', 'u8'}
+    for p_, a in adts:
+        for v in a.get('variants') or []:
+            for f in v.get('fields') or []:
+                ty = f.get('ty') or ''
+                rep.check(ty in SINK, 'R15.7', '%s|field-%s|no-state-across-interfaces' % (p_, f.get('name')), '%s:%s' % (a.get('file'), a.get('line')),
+                          'field `%s: %s` is the output text or the indentation counter' % (f.get('name'), ty),
+                          'the generator object keeps `%s: %s` between the interfaces it is asked to generate: a value remembered for the first interface (an error type, a '
+                          'name decision) is used for every later one, so their generated code decodes / names things as the first interface declares them' % (f.get('name'), ty))
+    rep.floor('R15.7', 2, 'fields of CodeGenerator')
+
+
 def check(fx, rep, tier):
+    rep.rule('R15.7', 'the code generator carries no state from one interface to the next: its fields are the output text and the indentation level only')
+    check_generator_state(fx, rep)
     rep.rule('R15.1', 'every case conversion of a wire name is paired, in the same emitter, with a rename attribute carrying the IDL spelling; error names are emitted verbatim')
     rep.rule('R15.2', 'the four IDL->Rust type tables agree with each other and with the reference table, constructor by constructor')
     rep.rule('R15.3', 'keyword table contains every strict/reserved keyword; self/Self/super/crate are never emitted as raw identifiers')
